@@ -217,6 +217,8 @@ ImplPathValid(p) ==
   /\ PathSize(p) <= 984
   /\ CASE p.k = "std" -> /\ Len(p.segs) \in 1..3
                          /\ p.ch < SegLen(p, 1) + SegLen(p, 2) + SegLen(p, 3)
+                         /\ (FIXED => p.ch <= 63)
+                         /\ (FIXED => SegLen(p, 1) + SegLen(p, 2) + SegLen(p, 3) <= 64)
                          /\ p.ci < Len(p.segs)
                          /\ \A i \in 1..Len(p.segs) : Len(p.segs[i].hops) \in 1..63
        [] p.k = "uns" -> Len(p.data) % 4 = 0 /\ (FIXED => p.t \notin {0, 1, 2})
@@ -226,7 +228,7 @@ ImplWireValid(m) ==
   /\ m.flow <= 1048575
   /\ ImplAddrValid(m.dst) /\ ImplAddrValid(m.src)
   /\ ImplPathValid(m.path)
-  /\ FIXED => PayloadRepresentable(m.pl, HdrSize(m))
+  /\ FIXED => PayloadRepresentable(m.pl, HdrSize(m))   \* ScionPacket / UdpDatagram / ScmpMessageUnknown::wire_valid
 
 (* <<HdrLen field, PayloadLen field, UDP Length field or -1>> as written by the encoder *)
 ImplLenFields(m) ==
@@ -265,6 +267,7 @@ CanonStdPath(bs, off, plen) ==     \* off = 0-based offset of the path, plen = i
         /\ s0 > 0 /\ (s2 > 0 => s1 > 0)
         /\ plen = 4 + 8 * nseg + 12 * nhop
         /\ ci < nseg /\ ch < nhop
+        /\ nhop <= 64          \* CurrHF is 6 bits: hop fields past index 63 could never be current
         /\ \A i \in 0..(nseg - 1) : /\ bs[off + 4 + 8 * i + 1] < 4      \* info flags: only C, P
                                     /\ bs[off + 4 + 8 * i + 2] = 0      \* info RSV
         /\ \A j \in 0..(nhop - 1) : bs[off + 4 + 8 * nseg + 12 * j + 1] < 4   \* hop flags: only I, E
